@@ -7,6 +7,7 @@ import (
 
 	"github.com/goccy/go-yaml"
 	"github.com/goccy/go-yaml/ast"
+	"github.com/goccy/go-yaml/parser"
 )
 
 // GetValue returns the value of the node.
@@ -51,7 +52,34 @@ func Update(f *ast.File, path *yaml.Path, value interface{}) error {
 		return err
 	}
 
+	// The replace re-indents the new node by the column of its first token. For a
+	// block mapping that is the ':' of the first key, so the result depends on the
+	// key's length (invalid yaml, a different document or a panic), and a literal
+	// block scalar keeps its own indentation. Write those on one line instead.
+	if blockMappingOrLiteral(b) {
+		b, err = yaml.MarshalWithOptions(value, yaml.JSON())
+		if err != nil {
+			return err
+		}
+	}
+
 	return path.ReplaceWithReader(f, bytes.NewReader(b))
+}
+
+func blockMappingOrLiteral(b []byte) bool {
+	f, err := parser.ParseBytes(b, 0)
+	if err != nil || len(f.Docs) == 0 {
+		return false
+	}
+
+	switch n := f.Docs[0].Body.(type) {
+	case *ast.MappingNode:
+		return !n.IsFlowStyle
+	case *ast.MappingValueNode, *ast.LiteralNode:
+		return true
+	}
+
+	return false
 }
 
 // MarshalFile returns the representation of the ast.File to a byte slice.
